@@ -64,6 +64,9 @@ type vfxSpec struct {
 	Rewards     bool   `json:"rewards"`      // some blocks get a Rewards object
 	Accounts    int    `json:"accounts"`     // size of the shared account universe
 	Gsfa        bool   `json:"gsfa"`         // also build the GSFA index
+	Boundary    bool   `json:"boundary"`     // extra objects whose section-length value is exactly 127,128,129,16383,16384,16385,...
+	ZeroTimes   bool   `json:"zero_times"`   // some blocks record block time 0
+	MultiSig    bool   `json:"multi_sig"`    // some transactions carry 2 or 3 signatures
 	Variant     int    `json:"variant"`      // alternative content for the same epoch ("another CAR of the same epoch")
 }
 
@@ -266,6 +269,9 @@ func vfxGenerate(spec vfxSpec) (*vfxTruth, []byte) {
 			continue
 		}
 		gb := vfxBlock{Slot: slot, Parent: parent, Blocktime: int64(1_600_000_000 + slot*2 + uint64(spec.Variant)), Height: slot/2 + uint64(rng.Intn(3)), HasHeight: rng.Intn(5) != 0}
+		if spec.ZeroTimes && rng.Intn(4) == 0 {
+			gb.Blocktime = 0 // early mainnet blocks record no block time
+		}
 		nEntries := 1 + rng.Intn(spec.MaxEntries)
 		var entryLinks ipldbindcode.List__Link
 		// transactions per entry, and the recorded position of each transaction: usually entry order, but
@@ -311,11 +317,31 @@ func vfxGenerate(spec vfxSpec) (*vfxTruth, []byte) {
 				}
 				accs = append(accs, prog)
 				ixAccs := []uint16{0, 1}
+				nsig := 1
+				if spec.MultiSig {
+					nsig = rng.Pick(1, 1, 2, 2, 3)
+				}
+				sigs := []solana.Signature{sig}
+				for len(sigs) < nsig {
+					var s2 solana.Signature
+					copy(s2[:], rng.Bytes(64))
+					sigs = append(sigs, s2)
+				}
+				if nsig == 3 {
+					// three signers need three signer accounts in front
+					var extra solana.PublicKey
+					copy(extra[:], rng.Bytes(32))
+					accs = append([]solana.PublicKey{accs[0], accs[1], extra}, accs[2:]...)
+					ixAccs = []uint16{0, 1}
+				}
+				// a SIMPLE vote transaction has one or two signatures (validator identity + authorized voter), is
+				// legacy and has exactly one instruction, of the vote program; with three signatures it is not one
+				vote = vote && nsig < 3
 				tx := solana.Transaction{
-					Signatures: []solana.Signature{sig},
+					Signatures: sigs,
 					Message: solana.Message{
 						AccountKeys:     accs,
-						Header:          solana.MessageHeader{NumRequiredSignatures: 1, NumReadonlyUnsignedAccounts: 1},
+						Header:          solana.MessageHeader{NumRequiredSignatures: uint8(nsig), NumReadonlyUnsignedAccounts: 1},
 						RecentBlockhash: solana.Hash(vfxAccount(9, int(slot%1000))),
 						Instructions:    []solana.CompiledInstruction{{ProgramIDIndex: uint16(len(accs) - 1), Accounts: ixAccs, Data: rng.Bytes(1 + rng.Intn(12))}},
 					},
@@ -421,6 +447,31 @@ func vfxGenerate(spec vfxSpec) (*vfxTruth, []byte) {
 		blockLinks = append(blockLinks, cidlink.Link{Cid: bc})
 		tr.Blocks = append(tr.Blocks, gb)
 		parent = slot
+	}
+	if spec.Boundary {
+		// standalone data frames whose section-length VALUE (cid + payload bytes) sits exactly at and around the
+		// points where the length varint gets one byte wider
+		for _, target := range []int{127, 128, 129, 16383, 16384, 16385, 16511, 16512} {
+			d := target - 36 - 12
+			for tries := 0; tries < 40 && d >= 0; tries++ {
+				payload := make([]byte, d)
+				for i := range payload {
+					payload[i] = byte(target + i*7 + int(spec.Epoch))
+				}
+				e := ipldbindcode.List__Link{}
+				ep := &e
+				fr := ipldbindcode.DataFrame{Kind: 6, Hash: vfxPP(target), Index: vfxPP(0), Total: vfxPP(1), Data: payload, Next: &ep}
+				b, err := fr.MarshalCBOR()
+				if err != nil {
+					panic(err)
+				}
+				if 36+len(b) == target {
+					g.add(b)
+					break
+				}
+				d += target - (36 + len(b))
+			}
+		}
 	}
 	first, last := 0, 0
 	if len(tr.Blocks) > 0 {
